@@ -248,19 +248,25 @@ func (w *World) violate(clause, store, detail, what string) {
 
 // Key is the canonical state.
 //
-// Same key => same futures: the registry keeps, outside the store, only (1) the hodl
-// subscriptions -- one per HTLC that is in the accepted state, which the key lists; (2) the
-// auto-release timers -- one or more per HTLC that was accepted while the invoice was open;
-// the only time-advancing event makes *all* of them due at once, and a timer whose HTLC
-// is no longer accepted-on-an-open-invoice is a no-op whenever it fires, so the set of
-// timers that can still act is exactly the set of accepted HTLCs of an open invoice, which
-// the key lists (absolute time is therefore not part of the key); (3) nothing else (the
-// expiry watcher never fires here). The store contents are rendered completely as far as
+// Same key => same futures: a registry INSTANCE keeps, outside the store, only (1) the hodl
+// subscriptions -- one per HTLC it told "held" (fresh or replayed) that is still in the accepted
+// state; (2) the auto-release timers -- one or more per HTLC it told "held" while the invoice
+// was open, each placed at the HTLC's STORED accept time plus the hold duration. The key lists,
+// for every accepted HTLC, whether the running instance told it "held" (sub/unsub: a restart
+// forgets all of them, a replay restores one) and, on an open invoice, whether its hold time
+// has passed already (overdue: possible only for an HTLC that sat out a clock advance without
+// a timer; a replay then arms a timer that fires at once). The only time-advancing event
+// advances by exactly one hold duration, so every timer that exists is due with it, and a
+// timer whose HTLC is no longer accepted-on-an-open-invoice is a no-op whenever it fires;
+// absolute time is therefore not part of the key beyond the overdue flag. (3) Nothing else
+// (the expiry watcher never fires here). The store contents are rendered completely as far as
 // any clause or any branch of update.go reads them (invoice state, terms, AmtPaid, per HTLC
 // state/amount/total/expiry/accept height/AMP data, AMP set states); add/settle indexes
-// and timestamps are dropped: no verdict depends on them. The harness' own memory (what
-// each recorded circuit key carried -- needed for exact replays and for the address
-// clause -- the verdict history and the height) is part of the key.
+// and timestamps other than the overdue flag are dropped: no verdict depends on them. The
+// bystander invoice of a "two" world is constant (a change is a violation and ends the
+// world). The harness' own memory (what each recorded circuit key carried -- needed for
+// exact replays and for the address clause --, the verdict history, the height, and the last
+// states of the HTLCs of a garbage-collected invoice) is part of the key.
 func (w *World) Key() string {
 	if w.dead != "" {
 		return "DEAD:" + w.dead
